@@ -13,6 +13,7 @@ volumes / prices / efficiencies T^0) and from the schema vocabulary (dt, Dt: T^1
 from __future__ import annotations
 import ast
 from . import astutil as au
+from . import canon
 from .flow import Domain, Walker
 from .carriers import local_roles
 
@@ -281,7 +282,7 @@ class DegEval:
         m = au.method_name(e)
         cn = au.call_name(e) or ""
         f = e.func
-        args = e.args
+        args = canon.pos_args(e)     # package callees are spelled with keywords after canonicalisation
         if m == "Timedelta":
             # pd.Timedelta(1, <x>.main_time_unit): one main time unit as absolute time  ->  T^-1 ; any other: absolute time (neutral)
             if len(args) >= 2 and "main_time_unit" in au.U(args[1]):
@@ -507,7 +508,7 @@ class FnDegrees:
                     callee = targets[0]
                     init = {}
                     ps = [q.name for q in callee.params[1:]]
-                    for q, a in zip(ps, v.args):
+                    for q, a in zip(ps, canon.pos_args(v)):
                         init[q] = ev.ev(a, env)
                         if isinstance(a, ast.Name):
                             for k2, v2 in env.items():
